@@ -10,7 +10,9 @@ import (
 	"os"
 	"path/filepath"
 	"reflect"
+	"regexp"
 	"sort"
+	"strconv"
 	"strings"
 
 	"golang.org/x/tools/go/callgraph/cha"
@@ -26,6 +28,8 @@ func structuralObligations(p *Loaded, verif string, kinds []string, entries []st
 			out = append(out, confTags(p, verif)...)
 		case "shared_state":
 			out = append(out, sharedState(p, entries)...)
+		case "wide_int_lb0":
+			out = append(out, wideIntLB0(p)...)
 		}
 	}
 	return out
@@ -449,3 +453,51 @@ func sharedState(p *Loaded, entries []string) []*Obligation {
 }
 
 var sharedStateCount int
+
+// wideIntLB0 (C03, C04): every INTEGER field of ngapType whose constraint spans more than 64K values
+// has lower bound 0 — the domain for which appendInteger's clause `wide` is stated.  Read off the
+// aper struct tags of the tree under verification.
+func wideIntLB0(p *Loaded) []*Obligation {
+	fn := "ngapType"
+	tagRe := regexp.MustCompile(`valueLB:(-?\d+),valueUB:(-?\d+)`)
+	var bad []string
+	n, wide := 0, 0
+	for _, spk := range p.Prog.AllPackages() {
+		if spk.Pkg.Path() != "free5gclib/ngap/ngapType" {
+			continue
+		}
+		sc := spk.Pkg.Scope()
+		for _, name := range sc.Names() {
+			tn, ok := sc.Lookup(name).(*types.TypeName)
+			if !ok {
+				continue
+			}
+			st, ok := tn.Type().Underlying().(*types.Struct)
+			if !ok {
+				continue
+			}
+			for i := 0; i < st.NumFields(); i++ {
+				m := tagRe.FindStringSubmatch(reflect.StructTag(st.Tag(i)).Get("aper"))
+				if m == nil {
+					continue
+				}
+				b, isB := st.Field(i).Type().Underlying().(*types.Basic)
+				if !isB || b.Info()&types.IsInteger == 0 {
+					continue
+				}
+				n++
+				lb, _ := strconv.ParseInt(m[1], 10, 64)
+				ub, _ := strconv.ParseInt(m[2], 10, 64)
+				if ub-lb >= 65536 {
+					wide++
+					if lb != 0 {
+						bad = append(bad, fmt.Sprintf("%s.%s (%d..%d)", name, st.Field(i).Name(), lb, ub))
+					}
+				}
+			}
+		}
+	}
+	return []*Obligation{
+		kObl(fn, "wide-integer-ranges-start-at-0", len(bad) == 0 && wide > 0, fmt.Sprintf("%d constrained INTEGER fields, %d with a range above 64K; lower bound not 0: %v", n, wide, bad)),
+	}
+}
